@@ -230,7 +230,7 @@ def c01(tier, replay=None):
         for tag, o in iter_tlc_json(out, ("DOC",)):
             docs.append(o)
         cleanup(wd)
-        cap = 6000 if tier == "quick" else 100000
+        cap = 6000 if tier == "quick" else 40000
         if len(docs) > cap:
             rnd.shuffle(docs)
             docs = docs[:cap]
@@ -513,6 +513,18 @@ def c08(tier, replay=None):
     # prefer bases with line terminators or non-ASCII characters inside values
     rich = [o for o in bases if any(s["v"] in ("ml", "mlsemi", "mlblank", "u2", "u3", "u4", "nl", "nlend") for s in o["slots"])]
     bases = (rich[:nb * 2 // 3] + bases[:nb])[:nb]
+    # CIF 1.1 documents: quoted strings with embedded delimiters (a quote ends the string only before white space, so the
+    # scanner looks one character ahead - possibly into the next buffer fill)
+    out, st1b, wd = run_doc_tlc("c08-base1", 1, ["word", "apos", "aposend", "quot", "both", "q2", "dq2", "semi", "ml", "br"], ["bare", "sq", "dq", "text"], ["sp", "eol", "cmt"], ["scalars", "loop1"], ["eof", "eol"], 2 if tier != "quick" else 1)
+    if not st1b["ok"]:
+        cleanup(wd); raise Infra("TLC failed on CifDoc (C08 CIF 1.1 bases): " + st1b.get("error", "")[:1000])
+    bases1 = [o for tag, o in iter_tlc_json(out, ("DOC",))]
+    cleanup(wd)
+    rnd.shuffle(bases1)
+    quoty = [o for o in bases1 if any(s["v"] in ("apos", "aposend", "quot", "both", "q2", "dq2") and s["p"] in ("sq", "dq") for s in o["slots"])]
+    nb1 = 30 if tier == "quick" else 200
+    bases += (quoty[:nb1 * 2 // 3] + bases1[:nb1])[:nb1]
+    st1 = dict(st1, distinct=st1["distinct"] + st1b["distinct"], generated=st1["generated"] + st1b["generated"])
     offs = (lambda n: range(0, n + 1)) if tier != "quick" else (lambda n: (0, 1) if n == 1 else (0, 1, n))
     jobs, meta = [], []
     for bi, o in enumerate(bases):
